@@ -16,7 +16,7 @@ RULE = ("Hypothesis-generated 2D/3D plotfiles (any layout, special-float payload
         "x level x execution order of the per-file read tasks (all n! orders and both eager/lazy modes when the "
         "level has <= 4 binary files, a drawn order beyond) for `for box in pck[f][lv]`, compared as a multiset of "
         "(shape, bytes) with every stored box; plus `.iter(sel)` for slice/list/mask selections compared in order. "
-        "Non-trivial = >= 2 binary files at the level with >= 2 boxes in one of them.")
+        "One plotfile in 25 has a level of 66-90 boxes with one binary file each. Non-trivial = >= 2 binary files at the level with >= 2 boxes in one of them.")
 ASSUMPTIONS = ["schedule-owning in-process pool is faithful to ordered-pool semantics (results in submission order, arguments pickled)"]
 
 
@@ -25,6 +25,14 @@ def cases(draw, tier="quick"):
     spec = draw(plotgen.plot_specs(thin=True, many=True, level_prefix=True, max_cells=3000 if tier == "quick" else 10000, max_fields=6,
                                    payload_kinds=("special", "coded", "random"),
                                    layouts=("scatter", "nonmono", "single")))
+    if draw(st.integers(0, 2 ** 16)) % 25 == 0:
+        # a level of 66 to 90 small boxes with one binary file each (more files than any batch or group size one might pick)
+        nd = spec["mesh"]["ndims"]
+        nb0 = [draw(st.sampled_from([11, 9, 10])), draw(st.sampled_from([6, 8, 9]))] + ([1] if nd == 3 else [])
+        spec["mesh"].update(bf=2, m=1, nb0=nb0, nlev=1, rects=[], chop_seed=0, thin0=0, no_unit=False, full=False,
+                            layout=dict(cls="perbox", seed=0, nfiles=1))
+        spec.pop("layout_override", None)
+        spec["many_files"] = True
     plot = plotgen.Plot(spec)
     limit = draw(st.one_of(st.none(), st.integers(0, plot.nlev - 1)))
     L = plot.nlev - 1 if limit is None else limit
@@ -58,6 +66,8 @@ def check_case(case, ctx):
         ctx.label("path:" + via)
     names = plot.fields
     labs = plot.labels()
+    if case["spec"].get("many_files"):
+        ctx.label("one-file-per-box(66-90 files)")
     ctx.label(*labs)
     try:
         pck = qcall(PlotfileCooker, src, limit_level=case["limit"])
